@@ -12,7 +12,7 @@ def run(R, ctx):
     small = execgen_list.small_scope(3, 4, 5) if R.tier == "quick" else execgen_list.small_scope(4, 6, 6)
     execsuite.run_exec_suite(
         R, ctx, name="lists",
-        gens=[(1, execgen_list.ListGen())],
+        gens=[(1, families.list_reread(execgen_list.ListGen()))],
         nprog=(300, 5000), corpus="exec_c09", extra_lines=small + families.refused_changes_nothing(random.Random(R.seed * 31 + 9), 120 if R.tier == "quick" else 2000),
         what="list commands (LPUSH/RPUSH and X forms, LPOP/RPOP with and without count, LLEN, LINDEX, LRANGE, LSET, LREM, LTRIM, LPOS with "
              "RANK/COUNT/MAXLEN, LMOVE incl. source = destination, BLPOP/BRPOP served at once / nil at a 0.1-0.3 s timeout / invalid timeout) over "
